@@ -6,6 +6,7 @@ from __future__ import annotations
 import numpy as np
 
 from harness import matlib as ml
+from symx.eqcheck import Skip
 
 
 def _a(xs, like=None):
@@ -74,6 +75,76 @@ class Model:
         if self.convention == "aux":
             return self.MTP(q), self.H(q), self.G(q), self.U(q)
         return self.MTP(q)
+
+
+class GeneralModel(Model):
+    """Translation-closed polynomial family for expansions at q = 0: every coefficient of every monomial up to the degree is a free
+    symbol (dim 1: degree 4; dim 2: degree 3), so 'for all coefficients at q = 0' is 'for all coefficients at every q0'."""
+
+    def __init__(self, mk, dim, prefix="g", convention="plain", degree=4):
+        self.dim = dim
+        self.convention = convention
+        self.calls = {"nld": 0, "grad": 0, "hess": 0, "mtp": 0}
+        self.degree = degree
+        n = min(degree, 4) if dim == 1 else 9
+        self.c = [mk.real(f"{prefix}{i}") for i in range(n)]
+
+    def _terms(self):
+        """[(coefficient, (e0, e1))]: U = sum coefficient * q0^e0 * q1^e1 / (e0! e1!)"""
+        c = self.c
+        if self.dim == 1:
+            return [(ci, (i + 1,)) for i, ci in enumerate(c)]
+        mons = [(1, 0), (0, 1), (2, 0), (1, 1), (0, 2), (3, 0), (2, 1), (1, 2), (0, 3)]
+        return list(zip(c, mons))
+
+    @staticmethod
+    def _mono(q, es):
+        import math as _m
+        r = 1
+        for x, e in zip(q, es):
+            for _ in range(e):
+                r = r * x
+            r = r / _m.factorial(e)
+        return r
+
+    def _deriv(self, q, order):
+        """Tensor of partial derivatives of the given order at q (nested lists)."""
+        d = self.dim
+
+        def dd(idx):
+            tot = 0 * q[0]
+            for coef, es in self._terms():
+                es2 = list(es)
+                ok = True
+                for i in idx:
+                    if es2[i] == 0:
+                        ok = False
+                        break
+                    es2[i] -= 1
+                if ok:
+                    tot = tot + coef * self._mono(q, es2)
+            return tot
+        if order == 0:
+            return dd(())
+        if order == 1:
+            return _a([dd((i,)) for i in range(d)])
+        if order == 2:
+            return _a([[dd((i, j)) for j in range(d)] for i in range(d)])
+        return [[[dd((i, j, k)) for k in range(d)] for j in range(d)] for i in range(d)]
+
+    def U(self, q):
+        return self._deriv(q, 0)
+
+    def G(self, q):
+        return self._deriv(q, 1)
+
+    def H(self, q):
+        return self._deriv(q, 2)
+
+    def MTP(self, q):
+        T = self._deriv(q, 3)
+        d = self.dim
+        return lambda m: _a([sum(m[i, j] * T[i][j][k] for i in range(d) for j in range(d)) for k in range(d)])
 
 
 class UFModel(Model):
@@ -146,14 +217,41 @@ class UFModel(Model):
 class MetricModel:
     """Position-dependent metric parameter functions with hand-written VJPs."""
 
-    def __init__(self, mk, kind, dim, convention="plain"):
+    def __init__(self, mk, kind, dim, convention="plain", general=False, degree=4):
         self.kind, self.dim, self.convention = kind, dim, convention
         self.calls = {"metric": 0, "vjp": 0}
-        self.a = [mk.real(f"a{i}") for i in range(4)]
+        self.general = general
+        self.a = [mk.real(f"a{i}") for i in range(4)] if not general else []
+        self.g = [mk.real(f"m{i}") for i in range(degree + 1 if dim == 1 else 6)] if general else []
+
+    def _gen_poly(self, q):
+        """General polynomial with free coefficients (translation-closed): dim 1 degree 4, dim 2 degree 2; and its gradient."""
+        g = self.g
+        if self.dim == 1:
+            x = q[0]
+            val, grad, xp = g[0], 0 * x, 1
+            for k in range(1, len(g)):
+                grad = grad + k * g[k] * xp
+                xp = xp * x
+                val = val + g[k] * xp
+            return val, [grad]
+        x, y = q[0], q[1]
+        val = g[0] + g[1] * x + g[2] * y + g[3] * x * x + g[4] * x * y + g[5] * y * y
+        grad = [g[1] + 2 * g[3] * x + g[4] * y, g[2] + g[4] * x + 2 * g[5] * y]
+        return val, grad
 
     def param(self, q):
         a = self.a
         k, d = self.kind, self.dim
+        if self.general:
+            val, _ = self._gen_poly(q)
+            if k == "scalar":
+                return val
+            if k == "diagonal" and d == 1:
+                return _a([val])
+            if k in ("cholesky", "dense") and d == 1:
+                return _a([[val]])
+            raise Skip(f"general {k} metric model in dim {d} not defined")
         if k == "scalar":
             return a[0] + a[1] * sum(x * x for x in q)
         if k == "diagonal":
@@ -173,6 +271,13 @@ class MetricModel:
     def vjp(self, q):
         a = self.a
         k, d = self.kind, self.dim
+        if self.general:
+            _, grad = self._gen_poly(q)
+            if k == "scalar":
+                return lambda v: _a([v * gi for gi in grad])
+            if k == "diagonal":
+                return lambda v: _a([v[0] * grad[0]])
+            return lambda v: _a([v[0, 0] * grad[0]])
         if k == "scalar":
             return lambda v: _a([v * 2 * a[1] * x for x in q])
         if k == "diagonal":
@@ -323,9 +428,11 @@ def make_metric(M, mk, mkind, dim):
     raise KeyError(mkind)
 
 
-def make_system(S, M, mk, kind, dim, mkind="diag", convention="plain", ckind="linear", hausdorff=True, uf=False):
-    """Returns (system, info) where info carries the model objects and dense references."""
-    model = (UFModel if uf else Model)(mk, dim, convention=convention)
+def make_system(S, M, mk, kind, dim, mkind="diag", convention="plain", ckind="linear", hausdorff=True, uf=False, general=False):
+    """Returns (system, info) where info carries the model objects and dense references.  general=True: translation-closed
+    polynomial families (every monomial coefficient free) for potential and metric, for expansions at q = 0."""
+    gdeg = 4 if general is True else int(general)  # general=3: degree-3 families (enough for obligations through eps^3 of a map)
+    model = GeneralModel(mk, dim, convention=convention, degree=gdeg) if general else (UFModel if uf else Model)(mk, dim, convention=convention)
     info = {"model": model, "dim": dim, "kind": kind}
     if kind in ("euclid", "gauss"):
         metric, Md = make_metric(M, mk, mkind, dim)
@@ -350,7 +457,7 @@ def make_system(S, M, mk, kind, dim, mkind="diag", convention="plain", ckind="li
         info["hausdorff"] = hausdorff if kind == "constr" else False
         return sysm, info
     if kind in ("scalar", "diagonal", "cholesky", "dense"):
-        mm = MetricModel(mk, kind, dim, convention=convention)
+        mm = MetricModel(mk, kind, dim, convention=convention, general=bool(general), degree=gdeg)
         info["metric_model"] = mm
         info["metric_dense"] = mm.dense
         cls = {"scalar": S.ScalarRiemannianMetricSystem, "diagonal": S.DiagonalRiemannianMetricSystem,
